@@ -131,6 +131,27 @@ def BodyFoot (m : MDesc) (fs : FS) (p : Path) : Prop :=
   p = hashDir m.dh ∨ p = hashDir m.dh ++ [.csv (highest fs + 1)] ∨
   p = datasetsDir ++ [.csv (highest fs + 1)] ∨ p = datasetsDir ++ [.dinfo (highest fs + 1)]
 
+/-- Footprint of a transaction body on key `key` that stores a model file
+    `model.<ext>`, results, metadata, and at most one new dataset numbered `N`
+    under the index of dataset hash `dh`. -/
+def FootN (key ext dh : String) (N : Nat) (p : Path) : Prop :=
+  p = modelPath key ext ∨ p = resultsPath key ∨ p = datasetsDir ∨ p = datasetsDir ++ [.s ".hash"] ∨
+  p = hashDir dh ∨ p = hashDir dh ++ [.csv N] ∨
+  p = datasetsDir ++ [.csv N] ∨ p = datasetsDir ++ [.dinfo N] ∨ p = metadataPath key
+
+theorem BodyFoot.footN {m : MDesc} {fs : FS} {p : Path} (h : BodyFoot m fs p) :
+    ∃ N, highest fs < N ∧ FootN m.key m.ext m.dh N p := by
+  refine ⟨highest fs + 1, Nat.lt_succ_self _, ?_⟩
+  rcases h with h | h | h | h | h | h | h | h
+  · exact Or.inl h
+  · exact Or.inr (Or.inl h)
+  · exact Or.inr (Or.inr (Or.inl h))
+  · exact Or.inr (Or.inr (Or.inr (Or.inl h)))
+  · exact Or.inr (Or.inr (Or.inr (Or.inr (Or.inl h))))
+  · exact Or.inr (Or.inr (Or.inr (Or.inr (Or.inr (Or.inl h)))))
+  · exact Or.inr (Or.inr (Or.inr (Or.inr (Or.inr (Or.inr (Or.inl h))))))
+  · exact Or.inr (Or.inr (Or.inr (Or.inr (Or.inr (Or.inr (Or.inr (Or.inl h)))))))
+
 theorem storeShared_ops (m : MDesc) (fs : FS) :
     (storeShared m fs).1 = [] ∨ ∃ r, (storeShared m fs).1 = writeModel m r := by
   unfold storeShared
@@ -273,5 +294,150 @@ theorem readEntry_ok_congr {k : String} {fs fs' : FS} {e : Entry}
         | results r => simp [hrd] at h
         | mdata r => simp [hrd] at h
 
+
+end Pharmpy.C16
+
+namespace Pharmpy.C16
+
+/-! ### the repaired `store_model` -/
+
+theorem foldl_max_le (l : List Seg) (acc X : Nat) (hacc : acc ≤ X) (h : ∀ n, Seg.csv n ∈ l → n ≤ X) :
+    l.foldl (fun acc x => match x with | .csv n => max acc n | _ => acc) acc ≤ X := by
+  induction l generalizing acc with
+  | nil => exact hacc
+  | cons x xs ih =>
+    simp only [List.foldl_cons]
+    apply ih
+    · cases x <;> first
+        | exact hacc
+        | exact Nat.max_le.mpr ⟨hacc, h _ List.mem_cons_self⟩
+    · exact fun n hn => h n (List.mem_cons_of_mem _ hn)
+
+def stepR (acc : Nat) (pn : Path × Node) : Nat :=
+  if datasetsDir.isPrefixOf pn.1 then
+    match pn.1.getLast? with
+    | some (.csv n) => max acc n
+    | some (.dinfo n) => max acc n
+    | _ => acc
+  else acc
+
+theorem highestR_eq (fs : FS) : highestR fs = fs.foldl stepR 0 := rfl
+
+theorem stepR_ge (acc : Nat) (pn : Path × Node) : acc ≤ stepR acc pn := by
+  unfold stepR
+  split
+  · split <;> first | exact Nat.le_max_left _ _ | exact Nat.le_refl _
+  · exact Nat.le_refl _
+
+theorem foldl_stepR_ge_acc (l : FS) (acc : Nat) : acc ≤ l.foldl stepR acc := by
+  induction l generalizing acc with
+  | nil => exact Nat.le_refl _
+  | cons x xs ih => exact Nat.le_trans (stepR_ge acc x) (ih _)
+
+theorem foldl_stepR_ge_mem (l : FS) (acc n : Nat) (nd : Node) (h : (datasetsDir ++ [Seg.csv n], nd) ∈ l) :
+    n ≤ l.foldl stepR acc := by
+  induction l generalizing acc with
+  | nil => cases h
+  | cons x xs ih =>
+    simp only [List.foldl_cons]
+    rcases List.mem_cons.mp h with rfl | h'
+    · refine Nat.le_trans ?_ (foldl_stepR_ge_acc _ _)
+      simp [stepR, datasetsDir, dbRoot]
+      exact Nat.le_max_right _ _
+    · exact ih _ h'
+
+theorem dropLast_append_of_getLast? {α : Type} : ∀ (l : List α) (x : α), l.getLast? = some x → l.dropLast ++ [x] = l
+  | [], _, h => by simp at h
+  | [a], x, h => by simp at h; simp [h]
+  | a :: b :: t, x, h => by
+    have h' : (b :: t).getLast? = some x := by simpa [List.getLast?_cons_cons] using h
+    have := dropLast_append_of_getLast? (b :: t) x h'
+    simp only [List.dropLast_cons₂, List.cons_append]
+    rw [this]
+
+/-- The repaired numbering is above the code's `highest`: still fresh. -/
+theorem highest_le_highestR (fs : FS) : highest fs ≤ highestR fs := by
+  unfold highest
+  apply foldl_max_le _ _ _ (Nat.zero_le _)
+  intro n hn
+  simp only [children, List.mem_filterMap] at hn
+  obtain ⟨⟨p, nd⟩, hmem, hp⟩ := hn
+  simp only at hp
+  cases hl : p.getLast? with
+  | none => simp [hl] at hp
+  | some x =>
+    simp only [hl] at hp
+    split at hp
+    · rename_i hd
+      cases hp
+      have : p = datasetsDir ++ [Seg.csv n] := by
+        have := dropLast_append_of_getLast? p (Seg.csv n) hl
+        rw [hd] at this; exact this.symm
+      subst this
+      exact foldl_stepR_ge_mem fs 0 n nd hmem
+    · cases hp
+
+theorem storeModelR_paths {m : MDesc} {fs : FS} {o : Op} (h : o ∈ (storeModelR m fs).1) :
+    ∃ N, highest fs < N ∧ FootN m.key m.ext m.dh N o.path := by
+  refine ⟨highestR fs + 1, Nat.lt_succ_of_le (highest_le_highestR fs), ?_⟩
+  unfold storeModelR at h
+  split at h
+  · simp at h
+  · split at h
+    · simp only [writeModel, List.mem_cons, List.not_mem_nil, or_false] at h
+      rcases h with rfl | rfl <;> exact Or.inl rfl
+    · simp only [storeFreshR, mkdirP, ancestors, writeModel, List.mem_append, List.mem_map, List.mem_filter,
+        List.mem_cons, List.not_mem_nil, or_false] at h
+      rcases h with (⟨p, ⟨hp, _⟩, rfl⟩ | h) | h
+      · rcases hp with rfl | rfl | rfl
+        · exact Or.inr (Or.inr (Or.inl rfl))
+        · exact Or.inr (Or.inr (Or.inr (Or.inl (by simp [Op.path, datasetsDir]))))
+        · exact Or.inr (Or.inr (Or.inr (Or.inr (Or.inl (by simp [Op.path, hashDir, datasetsDir])))))
+      · rcases h with rfl | rfl | rfl | rfl | rfl
+        · exact Or.inr (Or.inr (Or.inr (Or.inr (Or.inr (Or.inl rfl)))))
+        · exact Or.inr (Or.inr (Or.inr (Or.inr (Or.inr (Or.inr (Or.inl rfl))))))
+        · exact Or.inr (Or.inr (Or.inr (Or.inr (Or.inr (Or.inr (Or.inl rfl))))))
+        · exact Or.inr (Or.inr (Or.inr (Or.inr (Or.inr (Or.inr (Or.inr (Or.inl rfl)))))))
+        · exact Or.inr (Or.inr (Or.inr (Or.inr (Or.inr (Or.inr (Or.inr (Or.inl rfl)))))))
+      · rcases h with rfl | rfl <;> exact Or.inl rfl
+
+theorem storeModelR_ok (m : MDesc) (fs : FS) : (storeModelR m fs).2 = .ok () := by
+  unfold storeModelR
+  split
+  · rfl
+  · split <;> rfl
+
+theorem storeEntryBodyR_ok (m : MDesc) (fs : FS) : (storeEntryBodyR m fs).2 = .ok () := by
+  unfold storeEntryBodyR Prog.andThen
+  have := storeModelR_ok m fs
+  generalize storeModelR m fs = r at this
+  obtain ⟨o, x⟩ := r
+  simp only at this; subst this
+  simp only [storeResults]
+  cases m.res <;> rfl
+
+theorem storeEntryBodyR_paths {m : MDesc} {fs : FS} {o : Op} (h : o ∈ (storeEntryBodyR m fs).1) :
+    ∃ N, highest fs < N ∧ FootN m.key m.ext m.dh N o.path := by
+  unfold storeEntryBodyR Prog.andThen at h
+  have hok := storeModelR_ok m fs
+  generalize hr : storeModelR m fs = r at h hok
+  obtain ⟨o1, x⟩ := r
+  simp only at hok; subst hok
+  simp only [storeResults] at h
+  have h1 : ∀ o ∈ o1, ∃ N, highest fs < N ∧ FootN m.key m.ext m.dh N o.path :=
+    fun o ho => storeModelR_paths (by rw [hr]; exact ho)
+  cases hres : m.res with
+  | none => simp only [hres, List.append_nil] at h; exact h1 o h
+  | some r =>
+    simp only [hres, List.mem_append, List.mem_cons, List.not_mem_nil, or_false] at h
+    rcases h with h | rfl | rfl
+    · exact h1 o h
+    · exact ⟨highest fs + 1, Nat.lt_succ_self _, Or.inr (Or.inl rfl)⟩
+    · exact ⟨highest fs + 1, Nat.lt_succ_self _, Or.inr (Or.inl rfl)⟩
+
+theorem footN_ne_pending {key ext dh : String} {N : Nat} {p : Path} (k : String) (h : FootN key ext dh N p) :
+    p ≠ pendingPath k := by
+  rcases h with rfl | rfl | rfl | rfl | rfl | rfl | rfl | rfl | rfl <;>
+    simp [modelPath, resultsPath, metadataPath, keyDir, metaDir, pendingPath, datasetsDir, hashDir, dbRoot]
 
 end Pharmpy.C16
